@@ -253,7 +253,7 @@ def fam_single(w: World) -> None:
     ch = w.ch
     cfg = _config(w)
     n = 1 + ch.draw(3, 'n_calls')
-    calls = [gen.logical_call(ch, f't{k}') for k in range(n)]
+    calls = [gen.logical_call(ch, f't{k}', exotic=True, allow_single=True) for k in range(n)]
     _plan_pauses(w, calls)
     w.scenario = {'cfg': cfg, 'calls': [c.describe() for c in calls], 'notations': []}
     w.nontrivial = n >= 2 or any(c.method.startswith('fail') for c in calls)
@@ -316,7 +316,7 @@ def fam_batch(w: World) -> None:
     cfg = _config(w)
     n = 1 + ch.draw(4, 'n_calls')
     all_notif = ch.flag(1, 6, 'all_notifications')
-    calls = [gen.logical_call(ch, f't{k}') for k in range(n)]
+    calls = [gen.logical_call(ch, f't{k}', exotic=True, allow_single=True) for k in range(n)]
     if all_notif:
         for c in calls:
             c.notification = True
@@ -421,7 +421,7 @@ def fam_batch_reuse(w: World) -> None:
     for r in range(rounds):
         cs = []
         for _ in range(1 + ch.draw(2, 'round.size')):
-            c = gen.logical_call(ch, f't{k}')
+            c = gen.logical_call(ch, f't{k}', exotic=True, allow_single=True)
             if r == 0 and first_all_notif:
                 c.notification = True
             cs.append(c)
@@ -476,7 +476,7 @@ def fam_concurrent(w: World) -> None:
     cfg = _config(w)
     cfg['client_async'] = True
     n = 2 + ch.draw(2, 'callers')
-    calls = [gen.logical_call(ch, f't{k}') for k in range(n)]
+    calls = [gen.logical_call(ch, f't{k}', exotic=True, allow_single=True) for k in range(n)]
     _plan_pauses(w, calls)
     notations = []
     for c in calls:
